@@ -900,10 +900,14 @@ func (s *session) startReadAndHandle() {
 	var (
 		err      error
 		usedConn = s.getConn()
+		reading  *handlerCtx // the context that ReadMessage is filling
 	)
 	defer func() {
 		if p := recover(); p != nil {
 			err = fmt.Errorf("panic:%v\n%s", p, goutil.PanicTrace(2))
+			if reading != nil {
+				reading.finishBoundReply(err)
+			}
 		}
 		s.readDisconnected(usedConn, err)
 	}()
@@ -915,9 +919,12 @@ func (s *session) startReadAndHandle() {
 			s.peer.putContext(ctx, false)
 			return
 		}
+		reading = ctx
 		err = s.socket.ReadMessage(ctx.input)
+		reading = nil
 		verifGate("read.msg", s)
 		if (err != nil && ctx.GetBodyCodec() == codec.NilCodecID) || !s.goonRead() {
+			ctx.finishBoundReply(err)
 			s.peer.putContext(ctx, false)
 			return
 		}
@@ -930,6 +937,7 @@ func (s *session) startReadAndHandle() {
 			defer s.peer.putContext(ctx, true)
 			ctx.handle()
 		}) {
+			ctx.finishBoundReply(nil)
 			s.peer.putContext(ctx, true)
 		}
 	}
